@@ -14,10 +14,7 @@ Import ListNotations.
 Local Open Scope Z_scope.
 
 Definition qstr := list N.
-Definition INT_MAX : Z := 2147483647.
-Definition INT_MIN : Z := -2147483648.
-(* a C++ int result *)
-Definition ck (z : Z) : option Z := if (INT_MIN <=? z) && (z <=? INT_MAX) then Some z else None.
+(* INT_MAX, INT_MIN and [ck] (a C++ int result) come from FuncCleanupDefs *)
 Definition is_empty (s : qstr) : bool := match s with [] => true | _ => false end.
 (* s.left(n) / s.right(n) / QString(n, ch), checked *)
 Definition left_c (s : qstr) (n : Z) : option qstr := truncate_c s n.
